@@ -19,6 +19,22 @@ populations with fan-out along every relationship, for every chain of
 ANYREL_CHAINS and every clause of the where menu (satisfied by the first, a
 later, several or none of the related instances): v must be empty exactly when
 no related instance satisfies the clause and otherwise be one of those that do.
+
+Family boolexpr: boolean expressions over three (thorough: also four) atoms --
+every tree shape, every assignment of and / or (and == / !=), every placement
+of not -- printed with the minimal parentheses of the language's precedence
+(or < and < comparison < not), evaluated under every valuation of the atoms as
+a returned value, in where clauses (from instances any / many, along a chain),
+in if / elif / while conditions and as an assigned value.
+
+Family rebind: a variable bound in an enclosing block to an empty instance
+handle (selection matching nothing, navigation without partner, copy of an
+empty handle, selection over no population), an empty set, 0, false, "", 0.0 --
+or to a non-empty / non-zero value -- is bound again inside a nested block
+(if / elif / else / while / for each bodies, two levels, conditions testing the
+variable itself) by create, select, navigation, assignment or as a loop
+variable, read inside the block and after it; also with the enclosing block
+itself nested.
 '''
 import json
 
@@ -36,6 +52,13 @@ ASSUMPTIONS = [
     'below the two setups with the reflexive association class the menu is restricted to the statements over that association '
     '(menu_r4), and only population-changing statements lead to states that are expanded further',
     'variables are observed through generated OAL statements copying them into a PROBE instance',
+    'boolexpr family: precedence and associativity of the reference are those of the printer (mc.refs.oalast.LEVEL: or below and '
+    'below the comparisons below the arithmetic operators below the unary operators; and / or group to the left, comparisons do not '
+    'chain); the reference evaluates the tree, the interpreter the text printed with the fewest parentheses that keep the tree; '
+    'and / or are evaluated on both operands (operands have no side effects in this family); == / != between booleans are part of it',
+    'rebind family: a variable lives in the block of its first binding whatever value it holds (also an empty handle, an empty '
+    'set, 0, false, ""); a later binding in a nested block -- assignment, create, select, for-each loop variable -- updates that '
+    'variable, and the value is what reads inside and after the nested block see',
 ]
 
 Assoc = relmodel.Assoc
@@ -753,6 +776,352 @@ def anyrel_task(sub, cases):
             sub.count('transitions')
 
 
+
+# ---------------------------------------------------------------------------
+# family boolexpr: boolean expressions written with the minimal parentheses the language's precedence requires (or below and
+# below the comparisons below not), over every valuation of their atoms, in every place a boolean expression can stand
+# ---------------------------------------------------------------------------
+
+def _trees(lo, hi, ops):
+    """Every binary tree over the leaves lo..hi-1 (in this order), every assignment of operators."""
+    if hi - lo == 1:
+        return [('leaf', lo)]
+    out = []
+    for split in range(lo + 1, hi):
+        for op in ops:
+            for l in _trees(lo, split, ops):
+                for r in _trees(split, hi, ops):
+                    out.append(('bin', op, l, r))
+    return out
+
+
+def _with_nots(t, root=True):
+    """t with `not` in front of every subset of its leaves and inner nodes (not the root)."""
+    if t[0] == 'leaf':
+        base = [t]
+    else:
+        base = [('bin', t[1], l, r) for l in _with_nots(t[2], False) for r in _with_nots(t[3], False)]
+    return base if root else base + [('un', 'not', x) for x in base]
+
+
+def _single_nots(t):
+    """t, and t with `not` in front of one leaf or one inner node (not the root)."""
+    out = [t]
+
+    def walk(x, rebuild, root):
+        if not root:
+            out.append(rebuild(('un', 'not', x)))
+        if x[0] == 'bin':
+            walk(x[2], lambda y, x=x: rebuild(('bin', x[1], y, x[3])), False)
+            walk(x[3], lambda y, x=x: rebuild(('bin', x[1], x[2], y)), False)
+    walk(t, lambda y: y, True)
+    return out
+
+
+def _fill(t, atoms):
+    if t[0] == 'leaf':
+        return atoms[t[1]]
+    if t[0] == 'un':
+        return ('un', t[1], _fill(t[2], atoms))
+    return ('bin', t[1], _fill(t[2], atoms), _fill(t[3], atoms))
+
+
+def _dedup(ts):
+    seen, out = set(), []
+    for t in ts:
+        if repr(t) not in seen:
+            seen.add(repr(t))
+            out.append(t)
+    return out
+
+
+BOOL_LOGIC = ('and', 'or')
+BOOL_ALL = ('and', 'or', '==', '!=')
+
+
+def bool_templates(tier):
+    """(every template, the short list) of the tier: three leaves -- every tree over and / or with every placement of `not`,
+    every tree over and / or / == / != without; four leaves -- every tree over and / or.  The short list (three leaves, and / or,
+    at most one `not`) is what the more expensive contexts use in the quick tier."""
+    three = _trees(0, 3, BOOL_LOGIC)
+    full = []
+    for t in three:
+        full += _with_nots(t)
+    full += _trees(0, 3, BOOL_ALL)
+    short = []
+    for t in three:
+        short += _single_nots(t)
+    four = _trees(0, 4, BOOL_LOGIC)
+    if tier == 'thorough':
+        four = four + [x for t in four for x in _single_nots(t)]
+        short = full
+    return _dedup(full), _dedup(short), _dedup(four)
+
+
+def bool_atoms(h):
+    """Three independent boolean atoms over the instance h: an attribute read and two comparisons."""
+    return [('field', h, 'Flag'), B('==', ('field', h, 'N'), I(1)), B('==', ('field', h, 'Name'), S('x'))]
+
+
+def bool_population():
+    """Eight instances of A, one for every valuation of the three atoms (bit k of K - 1 = atom k), in a ring along R2."""
+    p = []
+    for k in range(8):
+        a = 'a%d' % (k + 1)
+        p += [('create', a, 'A'), ASG(F(a, 'K'), I(k + 1))]
+        if k & 1:
+            p.append(ASG(F(a, 'Flag'), TRUE))
+        if k & 2:
+            p.append(ASG(F(a, 'N'), I(1)))
+        if k & 4:
+            p.append(ASG(F(a, 'Name'), S('x')))
+    for k in range(8):
+        p.append(('relate', 'a%d' % (k + 1), 'a%d' % ((k + 1) % 8 + 1), 'R2', T('prev'), None))
+    p.append(('selfrom', 'many', 'as_', 'A', None, True))
+    return p
+
+
+BOOL_CONTEXTS = ['where-many', 'where-any', 'where-related', 'if', 'elif', 'while', 'assign']
+
+
+def bool_program(context, tmpl, bits=None):
+    """The program evaluating the template in the context: over all eight instances, or (context return) over variables
+    holding the valuation *bits*."""
+    sel = ('selected',)
+    if context == 'return':
+        names = ['p', 'q', 'r', 'u'][:len(bits)]
+        return [ASG(V(n), TRUE if b else FALSE) for n, b in zip(names, bits)] + [('return', _fill(tmpl, [V(n) for n in names]))]
+    pop = bool_population()
+    if context == 'where-many':
+        return pop + [('selfrom', 'many', 'rs', 'A', _fill(tmpl, bool_atoms(sel)), True), ('return', V('rs'))]
+    if context == 'where-any':
+        return pop + [('selfrom', 'any', 'x', 'A', _fill(tmpl, bool_atoms(sel)), True), ('return', V('x'))]
+    if context == 'where-related':
+        return pop + [('selrel', 'many', 'rs', V('as_'), [('A', 'R2', T('prev'))], _fill(tmpl, bool_atoms(sel))), ('return', V('rs'))]
+    e = _fill(tmpl, bool_atoms(V('x')))
+    hit, miss = [ASG(V('n'), B('+', B('*', V('n'), I(2)), I(1)))], [ASG(V('n'), B('*', V('n'), I(2)))]
+    if context == 'if':
+        body = [IF(e, hit, [], miss)]
+    elif context == 'elif':
+        body = [IF(B('<', V('n'), I(0)), miss, [(e, hit)], miss)]
+    elif context == 'while':
+        body = miss + [('while', e, [ASG(V('n'), B('+', V('n'), I(1))), ('break',)], True)]
+    elif context == 'assign':
+        body = [ASG(V('f'), e), IF(V('f'), hit, [], miss)]
+    else:
+        raise ValueError(context)
+    return pop + [ASG(V('n'), I(0)), ('foreach', 'x', 'as_', body, True), ('return', V('n'))]
+
+
+def boolexpr_cases(tier):
+    full, short, four = bool_templates(tier)
+    out = []
+    for t in full:
+        for v in range(8):
+            out.append(dict(family='boolexpr', context='return', tmpl=t, bits=[v & 1, v & 2, v & 4]))
+        out.append(dict(family='boolexpr', context='where-many', tmpl=t, bits=None))
+    for t in (four if tier == 'thorough' else []):
+        for v in range(16):
+            out.append(dict(family='boolexpr', context='return', tmpl=t, bits=[v & 1, v & 2, v & 4, v & 8]))
+    for c in BOOL_CONTEXTS[1:]:
+        for t in short:
+            out.append(dict(family='boolexpr', context=c, tmpl=t, bits=None))
+    return out
+
+
+def is_mixed_bare(e):
+    """Does the expression print an `and` and an `or` (or one of them and a comparison) with no parentheses between them?"""
+    text = A.assemble(A.print_expression(e))[0]
+    return '(' not in text and ' or ' in text and ' and ' in text
+
+
+def family_case(ctx, case):
+    """One program of the families boolexpr / rebind, run on both sides."""
+    fam = case['family']
+    if fam == 'boolexpr':
+        prog = bool_program(case['context'], case['tmpl'], case.get('bits'))
+        sig = 'c04:boolexpr:%s' % case['context']
+    else:
+        prog = case['prog']
+        sig = 'c04:rebind:%s' % case['container']
+    status, _ = check_program(ctx, prog, fam, sigprefix=sig, extra_case=case)
+    return status, prog
+
+
+def rebound_from_empty(case):
+    """rebind: does the variable hold an empty instance handle (an empty set) when the nested block is reached, and an
+    instance (a non-empty set) behind it -- in the reference?"""
+    if not case.get('split'):
+        return False
+    try:
+        n1, n2 = case['split']
+        _, _, e1 = run_reference(case['prog'][:n1])
+        _, _, e2 = run_reference(case['prog'][:n2])
+    except E.OutOfDomain:
+        return False
+    if e1 is None or e2 is None:
+        return False
+    v1, v2 = e1.get('Qv'), e2.get('Qv')
+    if isinstance(v1, E.Handle) and isinstance(v2, E.Handle):
+        return v1.idx is None and v2.idx is not None
+    if isinstance(v1, E.InstSet) and isinstance(v2, E.InstSet):
+        return not v1.idxs and bool(v2.idxs)
+    return False
+
+
+def family_task(sub, cases):
+    for case in cases:
+        sub.count('candidates')
+        status, prog = family_case(sub, case)
+        if status == 'ood':
+            sub.count('out_of_domain')
+            sub.count(case['family'] + '_out_of_domain')
+            continue
+        sub.count('transitions')
+        sub.count(case['family'] + '_runs')
+        sub.distinct('nontrivial', repr(prog))
+        if case['family'] == 'boolexpr':
+            sub.distinct('boolexpr_templates', repr(case['tmpl']))
+            if is_mixed_bare(_fill(case['tmpl'], [V('p'), V('q'), V('r'), V('u')])):
+                sub.count('boolexpr_mixed_bare')
+        else:
+            sub.distinct('rebind_outer_bindings', case['what'])
+            sub.distinct('rebind_containers', case['container'])
+            if rebound_from_empty(case):
+                sub.count('rebind_empty_then_bound')
+
+
+# ---------------------------------------------------------------------------
+# family rebind: a variable bound in an enclosing block -- to an empty instance handle, an empty set, 0, false, "" or to
+# something that is none of these -- is bound again inside a nested block and read in and after it.  (The variable is called
+# Qv: the generated probes copy the variables in the order of their names into a limited number of slots.)
+# ---------------------------------------------------------------------------
+
+_K99 = B('==', ('field', ('selected',), 'K'), I(99))
+_K2 = B('==', ('field', ('selected',), 'K'), I(2))
+REBIND_POP = [('create', 'a1', 'A'), ASG(F('a1', 'K'), I(1)), ('create', 'a2', 'A'), ASG(F('a2', 'K'), I(2)), ASG(F('a2', 'N'), I(2)),
+              ('create', 'a3', 'A'), ASG(F('a3', 'K'), I(3)), ('create', 'b1', 'B'), ASG(F('b1', 'K'), I(1)),
+              ('relate', 'b1', 'a1', 'R1', None, None), ('relate', 'a1', 'a2', 'R2', T('prev'), None),
+              ('selfrom', 'many', 'as_', 'A', None, True)]
+
+
+def rebind_outer():
+    """(name, type, statements binding Qv in the enclosing block)"""
+    return [
+        ('from-where-none', 'A', [('selfrom', 'any', 'Qv', 'A', _K99, True)]),
+        ('related-none-prev', 'A', [('selrel', 'one', 'Qv', V('a3'), [('A', 'R2', T('prev'))], None)]),
+        ('related-none-next', 'A', [('selrel', 'one', 'Qv', V('a3'), [('A', 'R2', T('next'))], None)]),
+        ('related-where-none', 'A', [('selrel', 'any', 'Qv', V('b1'), [('A', 'R1', None)], _K99)]),
+        ('copy-of-empty', 'A', [('selfrom', 'any', 'Qw', 'A', _K99, True), ASG(V('Qv'), V('Qw'))]),
+        ('from-any', 'A', [('selfrom', 'any', 'Qv', 'A', None, True)]),
+        ('related-some', 'A', [('selrel', 'one', 'Qv', V('b1'), [('A', 'R1', None)], None)]),
+        ('set-empty', 'set', [('selfrom', 'many', 'Qv', 'A', _K99, True)]),
+        ('set-some', 'set', [('selfrom', 'many', 'Qv', 'A', None, True)]),
+        ('int-0', 'int', [ASG(V('Qv'), I(0))]), ('int-1', 'int', [ASG(V('Qv'), I(1))]),
+        ('bool-false', 'bool', [ASG(V('Qv'), FALSE)]), ('bool-true', 'bool', [ASG(V('Qv'), TRUE)]),
+        ('str-empty', 'str', [ASG(V('Qv'), S(''))]), ('str-x', 'str', [ASG(V('Qv'), S('x'))]),
+        ('real-0', 'real', [ASG(V('Qv'), ('real', '0.0'))]), ('real-some', 'real', [ASG(V('Qv'), ('real', '1.5'))]),
+    ]
+
+
+def rebind_inner(ty, tier='thorough'):
+    """Statement lists binding Qv again (and reading it), by the type of Qv."""
+    if ty == 'A':
+        full = [[('create', 'Qv', 'A'), ASG(F('Qv', 'K'), I(7))],
+                [('selfrom', 'any', 'Qv', 'A', None, True)],
+                [('selfrom', 'any', 'Qv', 'A', _K2, True), ASG(F('Qv', 'N'), I(5))],
+                [('selrel', 'one', 'Qv', V('a1'), [('A', 'R2', T('prev'))], None)],
+                [('selrel', 'one', 'Qv', V('a1'), [('A', 'R2', T('next'))], None)],
+                [('selrel', 'any', 'Qv', V('b1'), [('A', 'R1', None)], B('==', ('field', ('selected',), 'K'), I(1)))],
+                [ASG(V('Qv'), V('a2'))],
+                [('selfrom', 'any', 'Qv', 'A', _K99, True)],
+                [('foreach', 'Qv', 'as_', [], True)],
+                [('foreach', 'Qv', 'as_', [IF(B('==', F('Qv', 'K'), I(2)), [('break',)])], True), ASG(F('Qv', 'N'), I(6))]]
+        return full if tier == 'thorough' else full[:3] + full[4:9]
+    if ty == 'set':
+        return [[('selfrom', 'many', 'Qv', 'A', None, True)], [('selfrom', 'many', 'Qv', 'A', _K99, True)],
+                [('selfrom', 'many', 'Qv', 'A', _K2, True), ASG(V('c_'), U('cardinality', V('Qv')))],
+                [('selrel', 'many', 'Qv', V('a1'), [('A', 'R2', T('prev'))], None)]]
+    if ty == 'int':
+        return [[ASG(V('Qv'), I(5))], [ASG(V('Qv'), B('+', V('Qv'), I(1)))], [ASG(V('Qv'), I(0))]]
+    if ty == 'bool':
+        return [[ASG(V('Qv'), TRUE)], [ASG(V('Qv'), U('not', V('Qv')))], [ASG(V('Qv'), FALSE)]]
+    if ty == 'str':
+        return [[ASG(V('Qv'), S('y'))], [ASG(V('Qv'), B('+', V('Qv'), S('y')))], [ASG(V('Qv'), S(''))]]
+    if ty == 'real':
+        return [[ASG(V('Qv'), ('real', '2.5'))], [ASG(V('Qv'), B('+', V('Qv'), ('real', '0.5')))], [ASG(V('Qv'), ('real', '0.0'))]]
+    raise ValueError(ty)
+
+
+QUICK_CONTAINERS = ('if', 'elif', 'else', 'while-once', 'foreach', 'foreach-if', 'if-empty', 'if-not-empty')
+
+
+def rebind_containers(ty, tier='thorough'):
+    """(name, prefix statements, function body -> statement) -- the nested block(s) the body stands in."""
+    out = [
+        ('if', [], lambda b: IF(TRUE, b)),
+        ('elif', [], lambda b: IF(FALSE, [], [(TRUE, b)])),
+        ('else', [], lambda b: IF(FALSE, [], [], b)),
+        ('while-once', [ASG(V('k_'), I(0))], lambda b: ('while', B('<', V('k_'), I(1)), [ASG(V('k_'), B('+', V('k_'), I(1)))] + b, True)),
+        ('while-twice', [ASG(V('k_'), I(0))], lambda b: ('while', B('<', V('k_'), I(2)), [ASG(V('k_'), B('+', V('k_'), I(1)))] + b, True)),
+        ('while-break', [], lambda b: ('while', TRUE, b + [('break',)], True)),
+        ('foreach', [], lambda b: ('foreach', 'e_', 'as_', b, True)),
+        ('if-if', [], lambda b: IF(TRUE, [IF(TRUE, b)])),
+        ('foreach-if', [], lambda b: ('foreach', 'e_', 'as_', [IF(B('==', F('e_', 'K'), I(2)), b)], True)),
+        ('else-while', [], lambda b: IF(FALSE, [], [], [('while', TRUE, b + [('break',)], True)])),
+    ]
+    if ty in ('A', 'set'):
+        out += [('if-empty', [], lambda b: IF(U('empty', V('Qv')), b)),
+                ('if-not-empty', [], lambda b: IF(U('not_empty', V('Qv')), b)),
+                ('elif-empty', [], lambda b: IF(FALSE, [], [(U('empty', V('Qv')), b)]))]
+    if tier != 'thorough':
+        out = [c for c in out if c[0] in QUICK_CONTAINERS]
+    return out
+
+
+def rebind_after(ty, tier):
+    out = [[], [('return', V('Qv'))]]
+    if tier == 'thorough':
+        if ty in ('A', 'set'):
+            out += [[('return', U('empty', V('Qv')))], [('return', U('cardinality', V('Qv')))]]
+        if ty == 'A':
+            out.append([IF(U('not_empty', V('Qv')), [ASG(F('Qv', 'Name'), S('seen'))])])
+    return out
+
+
+def rebind_cases(tier):
+    """Every outer binding x container x inner binding x read after the block; and the same with the enclosing block itself
+    nested (the first binding then lives in a block that is not the outermost one).  Over the population REBIND_POP and, for
+    selections from instances, over no population at all."""
+    out = []
+
+    def add(what, container, prog, split=None):
+        out.append(dict(family='rebind', what=what, container=container, prog=prog, split=split))
+    for oname, ty, outer in rebind_outer():
+        for cname, prefix, wrap in rebind_containers(ty, tier):
+            for inner in rebind_inner(ty, tier):
+                for after in rebind_after(ty, tier):
+                    head = REBIND_POP + prefix + outer
+                    add(oname, cname, head + [wrap(list(inner))] + after, [len(head), len(head) + 1])
+                # the enclosing block is itself a nested block; the outcome is carried out through an attribute of a1
+                if ty == 'A':
+                    see = [IF(U('not_empty', V('Qv')), [ASG(F('a1', 'N'), B('+', I(50), F('Qv', 'K')))], [], [ASG(F('a1', 'N'), I(40))])]
+                elif ty == 'int':
+                    see = [ASG(F('a1', 'N'), V('Qv'))]
+                else:
+                    continue
+                add(oname, 'nested:' + cname, REBIND_POP + prefix + [IF(TRUE, outer + [wrap(list(inner))] + see)])
+    # no instance at all: the selection from instances is empty, the nested block creates the instance
+    for cname, prefix, wrap in rebind_containers('A', tier):
+        for inner in ([('create', 'Qv', 'A'), ASG(F('Qv', 'K'), I(7))], [('create', 'Qv', 'A')], [('create', 'Qv', 'A'), ('create', 'Qv', 'A')]):
+            if cname.startswith('foreach'):
+                continue
+            for after in ([], [('return', V('Qv'))], [ASG(F('Qv', 'N'), I(3))], [('return', F('Qv', 'K'))]):
+                head = prefix + [('selfrom', 'any', 'Qv', 'A', None, True)]
+                add('from-nothing', cname, head + [wrap(list(inner))] + after, [len(head), len(head) + 1])
+    return out
+
+
 DEPTH = {'quick': 2, 'thorough': 3}
 
 
@@ -784,7 +1153,9 @@ def run(ctx):
     cases = anyrel_cases(ctx.tier)
     cases = explorer.rotate(cases, ctx.seed)
     ctx.pmap(anyrel_task, [cases[i:i + 40] for i in range(0, len(cases), 40)])
-    ctx.count('states', len(seen) + len(FAN_ORDERS[ctx.tier]))
+    fam = explorer.rotate(boolexpr_cases(ctx.tier) + rebind_cases(ctx.tier), ctx.seed)
+    ctx.pmap(family_task, [fam[i::len(fam) // 25 + 1] for i in range(len(fam) // 25 + 1)])
+    ctx.count('states', len(seen) + len(FAN_ORDERS[ctx.tier]) + len(fam))
     longest = max(seen.values(), key=len)
     ctx.sample(dict(program=A.assemble(A.print_program(longest))[0]))
     ctx.sample(dict(program=A.assemble(A.print_program(SETUPS[2] + [menu(*(_env_of(SETUPS[2])), tier='thorough')[-3]]))[0]))
@@ -794,6 +1165,13 @@ def run(ctx):
                 'fails the where clause and a later one satisfies it (%d)' % ctx.n('anyrel_first_related_fails_later_matches'))
     ctx.require(ctx.n('anyrel_empty') >= 40, 'too few selections along chains where no related instance satisfies the clause (%d)'
                 % ctx.n('anyrel_empty'))
+    ctx.require(ctx.n('boolexpr_out_of_domain') == 0 and ctx.n('boolexpr_runs') >= 1500,
+                'boolexpr family: %d runs, %d programs the reference rejects' % (ctx.n('boolexpr_runs'), ctx.n('boolexpr_out_of_domain')))
+    ctx.require(ctx.n('boolexpr_mixed_bare') >= 150, 'too few runs of expressions mixing and / or without parentheses (%d)'
+                % ctx.n('boolexpr_mixed_bare'))
+    ctx.require(ctx.n('rebind_runs') >= 1500 and ctx.n('rebind_empty_then_bound') >= 300,
+                'rebind family: %d runs, %d of them bind an empty handle / set of the enclosing block to something inside a nested block'
+                % (ctx.n('rebind_runs'), ctx.n('rebind_empty_then_bound')))
     ctx.require(ctx.nd('nontrivial') >= 300, 'too few programs with loops / conditionals / where clauses (%d)' % ctx.nd('nontrivial'))
 
 
@@ -805,6 +1183,9 @@ def _env_of(prog):
 def replay(ctx, case):
     if case.get('family') == 'anyrel':
         check_anyrel(ctx, case)
+        return
+    if case.get('family') in ('boolexpr', 'rebind'):
+        family_case(ctx, case)
         return
     check_program(ctx, case['prog'], case.get('family', 'seq'))
 
@@ -821,10 +1202,25 @@ def coverage(ctx):
              'distinct state (reference population + variable environment); candidates the reference rejects as out of domain are '
              'not run; non-trivial = distinct programs whose last statement is a loop, a conditional, or a selection with a where '
              'clause or a relationship chain; plus the anyrel family: every (link order, chain, where clause, any|one, observation '
-             'variant) combination over the fan-out population',
+             'variant) combination over the fan-out population; plus the boolexpr family: every (template, context[, valuation]) '
+             'case, and the rebind family: every (outer binding, container, inner binding, read after the block) case',
         bounds=dict(depth=DEPTH[ctx.tier], setups=len(SETUPS), pools=dict(A=3, B=2, C=1, L=2), setup_menus=SETUP_FOCUS,
                     anyrel=dict(link_orders=FAN_ORDERS[ctx.tier], chains=len(ANYREL_CHAINS),
                                 where_clauses=len(anyrel_wheres(ANYREL_CHAINS[0][1], ctx.tier)),
                                 population='3 A, 3 B, 2 C, 2 L; R1 a1<-b1,b2,b3; R3 a1-c1-b1, a1-c2-b3; R4 a1-l1->a2, a1-l2->a3; R2 a1,a2,a3')),
+        boolexpr=dict(runs=ctx.n('boolexpr_runs'), templates=ctx.nd('boolexpr_templates'),
+                      runs_mixing_and_or_without_parentheses=ctx.n('boolexpr_mixed_bare'), contexts=['return'] + BOOL_CONTEXTS,
+                      bounds=dict(leaves=3 if ctx.quick else 4, operators=BOOL_ALL,
+                                  templates='three leaves: every tree over and/or with not before every subset of leaves and inner nodes, '
+                                            'every tree over and/or/==/!= without not; four leaves (thorough): every tree over and/or, at most '
+                                            'one not',
+                                  valuations='all 2^leaves: as literal-valued variables (return), as eight instances of A (other contexts)',
+                                  quick='contexts other than return / where-many use the and/or trees with at most one not')),
+        rebind=dict(runs=ctx.n('rebind_runs'), out_of_domain=ctx.n('rebind_out_of_domain'),
+                    outer_bindings=ctx.nd('rebind_outer_bindings'), containers=ctx.nd('rebind_containers'),
+                    empty_in_the_enclosing_block_then_bound_in_the_nested_block=ctx.n('rebind_empty_then_bound'),
+                    bounds=dict(outer=[o[0] for o in rebind_outer()] + ['from-nothing'],
+                                containers=[c[0] for c in rebind_containers('A', ctx.tier)], nesting='the container, and the container '
+                                'inside an if block that also holds the first binding', population='3 A, 1 B (R1 b1-a1, R2 a1-a2); or none')),
         exhaustive=not ctx.caps_hit,
     )
